@@ -98,6 +98,8 @@ def parseInstr : Toks → Option (Instr × Toks)
   | "Return" :: r => some (.ret, r)
   | "Include" :: b :: r => some (.include_ (b == "1"), r)
   | "CallBlock" :: h :: r => (unhexAscii h).map (fun s => (.callBlock s, r))
+  | "LoadBlocks" :: r => some (.loadBlocks, r)
+  | "FastSuper" :: r => some (.fastSuper, r)
   | "BuildMap" :: n :: r => n.toNat?.map (fun n => (.buildMap n, r))
   | "Add" :: r => some (.arith .add, r)
   | "Sub" :: r => some (.arith .sub, r)
@@ -162,9 +164,16 @@ def parseProg (ctx : List (String × V)) (toks : Toks) : Option (St × Prog) :=
     | some k => match parseCodes k r [] with
       | some codes =>
         let named := (codes.zipIdx.drop 1).map (fun p => (p.1.1, p.2))
+        -- `@<template>@<block>` (template `-` = the template itself)
+        let blk : List (String × String × Nat) := (named.filter (fun p => p.1.startsWith "@")).filterMap (fun p =>
+          match (p.1.drop 1).toString.splitOn "@" with
+          | [t, b] => some (t, b, p.2)
+          | _ => none)
+        let tmpls := named.filter (fun p => !p.1.startsWith "@")
         let prog : Prog := { codes := (codes.map (·.2)).toArray,
-                             templates := named.filter (fun p => !p.1.startsWith "@"),
-                             blocks := (named.filter (fun p => p.1.startsWith "@")).map (fun p => ((p.1.drop 1).toString, p.2)) }
+                             templates := tmpls,
+                             blocks := (blk.filter (fun p => p.1 == "-")).map (fun p => p.2),
+                             parentBlocks := tmpls.map (fun t => (t.1, (blk.filter (fun p => p.1 == t.1)).map (fun p => p.2))) }
         some ({ ctx := ctx, formatter := f.toNat?.getD 0 }, prog)
       | none => none
     | none => none
